@@ -36,6 +36,10 @@ CHECKS = {
   text="Lean theorems: for any page built from literal segments and escaped data slots whose slots are all reached outside tag position (a check computed on the literals alone), the tag/attribute skeleton and final tokenizer state are the same for ALL data (skeleton_of_shape, by induction on the segment list); every builder that mirrors pygopherd's HTML/WML generators (HTTP rows for every entry shape and icon of the extracted icon table, directory start, error pages, URL redirect page, WML rows for every counter value and access key, WML error/start pages, text-to-WML for every file) is proved safe and composition-closed; html.escape output never contains < > \" '; the URL filter refuses a double quote; Gopher+ attribute content lines are indented and free of line breaks, so none can pass for a block header. Tie: real listing rows, error pages and WML text pages equal the model's emitted segments byte for byte. Oracle: skeleton(real page with payload) == skeleton(real page with inert twin) in every echo position; header lines server-chosen.",
   note="browser parsing is represented by a four-state tokenizer; the configurable page topper is administrator markup; HTML <title> position only partly exercised",
   technique="Lean 4 proof (skeleton invariance over segment templates) + byte-level correspondence + payload/twin oracle"),
+ "C15": dict(
+  text="Lean theorems for every entry: the +INFO block is '+INFO: ' followed by exactly the plain Gopher renderer's line of the same entry; the listing is INFO, ADMIN, VIEWS then one block per extended attribute in the entry's order; +VIEWS is ' <mime>: <size/1024 k>'; for printable sidecar lines the lines a client reads back from a block are exactly the sidecar's right-stripped lines (splitlines of the joined value), each behind one space and free of line breaks (shared with C13); '+' documents are prefixed by the exact length or +-2 (shared with C04). Tie: real '!' responses for files of several MIME classes and sizes and for directories, with every subset of the four sidecars and multi-line/odd contents, vs the model's populate + gplusBlocks byte for byte (Mod-Date masked); '$' listings through the gophermap machinery. Oracle: parsed blocks vs menu line, sidecar files, mimetypes table and size; '$' blocks == each child's '!'.",
+  note="time formatting of Mod-Date masked; sidecars compared right-stripped (what the code keeps); stat/mimetypes/regex mapping are oracles fed to the model",
+  technique="Lean 4 proof (block structure, sidecar round trip) + byte-level correspondence + block oracle"),
  "C19": dict(
   text="Lean theorems for every option combination and every fault position (unbounded index) of the start-up model: bind and key loading precede any privilege drop, chroot then chdir('/') then setgroups(()) then setregid then setreuid, root rewritten to '/', failure of any step aborts with nothing executed after it. Tie is complete and kernel-checked: the real initialize() is executed under substituted system calls on all 16 x (1 + fault positions) points and `table_agrees` proves the executed table equals the model's.",
   note="trusted: the substitution of os/pwd/grp/socket/ssl entry points observes every privileged call; kernel behaviour of the real system calls and the detach fork are not modelled",
